@@ -401,8 +401,10 @@ pub fn emit_entry(s: &Spec) -> String {
     } else {
         format!("match i {{ {pat} => match {call} {{ Ok(v) => {{ let mut bad: Vec<&'static str> = vec![]; {conds} Some(bad) }}, Err(_) => None }}, _ => None }}", pat = pat, call = call, conds = conds.join(" "))
     };
+    let nw = emit_newtype(s, pat);
     format!(
-        "fn call_{id}(i: &::vl3::In) -> Option<::darling::Result<::vmodel::val::Val>> {{ match i {{ {pat} => Some({call}.map(|v| ::vmodel::val::Observe::observe(&v))), _ => None }} }}\nfn none_{id}() -> Option<::vmodel::val::Val> {{ {none} }}\nfn exact_{id}(i: &::vl3::In) -> Option<Vec<&'static str>> {{ {exact} }}\n",
+        "{nw}fn call_{id}(i: &::vl3::In) -> Option<::darling::Result<::vmodel::val::Val>> {{ match i {{ {pat} => Some({call}.map(|v| ::vmodel::val::Observe::observe(&v))), _ => None }} }}\nfn none_{id}() -> Option<::vmodel::val::Val> {{ {none} }}\nfn exact_{id}(i: &::vl3::In) -> Option<Vec<&'static str>> {{ {exact} }}\n",
+        nw = nw,
         id = s.id,
         pat = pat,
         call = call,
@@ -411,10 +413,46 @@ pub fn emit_entry(s: &Spec) -> String {
     )
 }
 
+/// 0 = no wrapper, 1 = map, 2 = and_then accepting, 3 = and_then refusing
+pub fn newtype_mode(s: &Spec) -> u8 {
+    match s.tr {
+        Trait::FromMeta | Trait::FromDeriveInput | Trait::FromAttributes => 1 + (s.id % 3) as u8,
+        _ => 0,
+    }
+}
+
+/// A newtype wrapper around the receiver deriving the same trait, with a container-level transform (and, for
+/// FromMeta, a `from_none`) that counts its calls; the derive delegates to the wrapped receiver.
+fn emit_newtype(s: &Spec, pat: &str) -> String {
+    let id = s.id;
+    let mode = newtype_mode(s);
+    if mode == 0 {
+        return format!("fn nw_{id}(_i: &::vl3::In) -> Option<::darling::Result<::vmodel::val::Val>> {{ None }}\nfn nwnone_{id}() -> bool {{ true }}\n", id = id);
+    }
+    let (opt, sig, body) = match mode {
+        1 => ("map", "Self", "v"),
+        2 => ("and_then", "::darling::Result<Self>", "::darling::export::Ok(v)"),
+        _ => ("and_then", "::darling::Result<Self>", "{ let _ = v; ::darling::export::Err(::darling::Error::custom(\"nw refuses\")) }"),
+    };
+    let (call, fnone, none_fn) = match s.tr {
+        Trait::FromMeta => (
+            format!("<NW{} as ::darling::FromMeta>::from_meta(x)", id),
+            format!(", from_none = NW{}::nn", id),
+            format!("<NW{} as ::darling::FromMeta>::from_none().is_none()", id),
+        ),
+        Trait::FromDeriveInput => (format!("<NW{} as ::darling::FromDeriveInput>::from_derive_input(x)", id), String::new(), "true".to_string()),
+        _ => (format!("<NW{} as ::darling::FromAttributes>::from_attributes(x)", id), String::new(), "true".to_string()),
+    };
+    format!(
+        "#[derive(::darling::{tr})]\n#[darling({opt} = \"NW{id}::tr\"{fnone})]\npub struct NW{id}(pub R{id});\nimpl NW{id} {{\n    fn tr(v: Self) -> {sig} {{ ::vl3::nw_hit(); {body} }}\n    fn nn() -> ::core::option::Option<Self> {{ ::vl3::nw_hit(); ::core::option::Option::None }}\n}}\nfn nw_{id}(i: &::vl3::In) -> Option<::darling::Result<::vmodel::val::Val>> {{ match i {{ {pat} => Some({call}.map(|v| ::vmodel::val::Observe::observe(&v.0))), _ => None }} }}\nfn nwnone_{id}() -> bool {{ {none_fn} }}\n",
+        tr = s.tr.name(), opt = opt, id = id, fnone = fnone, sig = sig, body = body, pat = pat, call = call, none_fn = none_fn
+    )
+}
+
 pub fn emit_registry(specs: &[Spec]) -> String {
     let mut s = String::from("pub fn registry() -> Vec<::vl3::Entry> { vec![\n");
     for sp in specs {
-        s.push_str(&format!("    ::vl3::Entry {{ id: {id}, call: call_{id}, from_none: none_{id}, exact: exact_{id} }},\n", id = sp.id));
+        s.push_str(&format!("    ::vl3::Entry {{ id: {id}, call: call_{id}, from_none: none_{id}, exact: exact_{id}, newtype: nw_{id}, newtype_mode: {m}, newtype_none: nwnone_{id} }},\n", id = sp.id, m = newtype_mode(sp)));
     }
     s.push_str("] }\n");
     s
